@@ -248,6 +248,66 @@ theorem C09_counts {α : Type} (flags : List Nat) (chi2 : List α) (table : List
   funext f
   by_cases h1 : f = 1 <;> by_cases h4 : f = 4 <;> simp [h1, h4]
 
+/-! ### Labelled columns, call-time counts, the plots' table -/
+
+theorem zip_map_self {α β : Type} (f : α → β) : ∀ l : List α, l.zip (l.map f) = l.map (fun p => (p, f p))
+  | [] => rfl
+  | a :: l => by simp [zip_map_self f l]
+
+/-- **C09 (labels).** For every column list of the parameter table — any width, `MODEL_NAME` first, in
+    the middle or last — the header labels and the cells of a printed line pair up label by label:
+    the column labelled `p` holds the row's value of parameter `p`; every parameter column is shown
+    and `MODEL_NAME` never is. -/
+theorem C09_labels (cols : List String) (row : String → K) :
+    (printHeader cols).zip (printCells cols row) = (paramLabels cols).map (fun p => (p, row p)) ∧
+    (∀ p ∈ cols, p ≠ "MODEL_NAME" → (p, row p) ∈ (printHeader cols).zip (printCells cols row)) ∧
+    "MODEL_NAME" ∉ printHeader cols := by
+  have hz : (printHeader cols).zip (printCells cols row) = (paramLabels cols).map (fun p => (p, row p)) :=
+    zip_map_self row (paramLabels cols)
+  refine ⟨hz, ?_, ?_⟩
+  · intro p hp hne
+    rw [hz]
+    exact List.mem_map.mpr ⟨p, List.mem_filter.mpr ⟨hp, by simpa using hne⟩, rfl⟩
+  · simp [printHeader, paramLabels]
+
+/-- **C09 (labels, any column order).** Two column orders of the same table (any permutation, so also
+    any position of `MODEL_NAME`) print the same label–value pairs, up to that permutation. -/
+theorem C09_labels_any_order (cols cols' : List String) (h : cols.Perm cols') (row : String → K) :
+    ((printHeader cols).zip (printCells cols row)).Perm ((printHeader cols').zip (printCells cols' row)) := by
+  rw [(C09_labels cols row).1, (C09_labels cols' row).1]
+  exact (h.filter _).map _
+
+/-- **C09 (counts at call time).** `n_data` is computed from the flag list as it is when the listing is
+    made: after an in-place edit `valid[j] = v` it is the number of flags 1 / 4 of the edited list. -/
+theorem C09_counts_at_call_time (flags : List Nat) (j v : Nat) :
+    nData (flags.set j v) = ((flags.set j v).filter (fun f => decide (f = 1 ∨ f = 4))).length := by
+  simp only [nData, List.countP_eq_length_filter]
+  congr 2
+  funext f
+  by_cases h1 : f = 1 <;> by_cases h4 : f = 4 <;> simp [h1, h4]
+
+theorem attach_nil : ∀ rows : List (String × V),
+    attach ([] : List (List (String × K))) rows = some (rows.map (fun r => (r.1, r.2, [])))
+  | [] => rfl
+  | r :: rs => by simp [attach, extras, attach_nil rs]
+
+/-- **C09 (the plots' table).** The table the parameter plots obtain does not depend on `log_x` /
+    `log_y`, and it is the table of the listing (without additional columns): same rows, same order. -/
+theorem C09_plot_table (logX logY : Bool) (rows : List (String × V)) (mn : List String) :
+    plotTable logX logY rows mn = plotTable false false rows mn ∧
+    (∀ r, listing rows mn ([] : List (List (String × K))) = .ok r →
+      plotTable logX logY rows mn = .ok (r.map (fun x => (x.1, x.2.1)))) := by
+  refine ⟨rfl, ?_⟩
+  intro r hr
+  unfold listing filterTableAdd at hr
+  unfold plotTable
+  cases hs : filterTable (prepTable rows) mn with
+  | error e => simp [hs] at hr
+  | ok sorted =>
+    simp only [hs, attach_nil, Except.ok.injEq] at hr
+    subst hr
+    simp [List.map_map, Function.comp_def]
+
 /-! ### Non-vacuity: concrete tables, fits and dictionaries meet the hypotheses -/
 
 /-- a prepared (stripped, name-sorted) table with one numeric column -/
@@ -303,5 +363,9 @@ example : paramRangesEF [EF.nan, EF.fin (3 : Rat), EF.fin 7] = some (EF.fin 3, E
 example : paramRangesEF [(EF.nan : EF Rat), EF.nan] = some (EF.nan, EF.nan, EF.nan) := by decide
 example : paramRanges [(3 : Rat), 1, 4] = some (1, 3, 4) := by decide
 example : nData [1, 4, 0, 3, 9, 1, 2] = 3 := by decide
+-- `C09_labels` / `C09_labels_any_order`: MODEL_NAME in the middle and last; `C09_counts_at_call_time`: one band masked
+example : printHeader ["PAR1", "MODEL_NAME", "Q2"] = ["PAR1", "Q2"] ∧ printHeader ["Q2", "PAR1", "MODEL_NAME"] = ["Q2", "PAR1"] ∧
+    ["PAR1", "MODEL_NAME", "Q2"].Perm ["Q2", "PAR1", "MODEL_NAME"] := by decide
+example : nData ([1, 4, 0, 1].set 1 0) = 2 ∧ nData [1, 4, 0, 1] = 3 := by decide
 
 end SF
